@@ -6,7 +6,7 @@ import random
 import gen
 import ops
 import steps as S
-from common import Case, b
+from common import Case, b, lst, nat
 from prosemirror.model import Fragment, Node, Slice
 from prosemirror.transform import Transform, structure
 
@@ -179,11 +179,127 @@ def approved_candidates(rng, doc, cap):
     return out
 
 
+# ---------------------------------------------------------------- modelled helpers and step builders
+def _answer(info, f, kind):
+    """run the implementation; the answer as a Gallina term of type sanswer"""
+    from common import opt
+    import pm
+    try:
+        v = f()
+    except Exception as e:  # noqa: BLE001
+        return f"(AErr {pm.err_class(e)})", f"error:{type(e).__name__}"
+    if kind == "bool":
+        return f"(ABool {b(bool(v))})", str(bool(v))
+    if kind == "optbool":
+        return f"(AOptBool {opt(v, lambda x: b(bool(x)))})", str(v)
+    if kind == "optnat":
+        return f"(AOptNat {opt(v, nat)})", str(v)
+    return f"(AStep {S.step_term(info, v)})", "step"
+
+
+def struct_queries(rng, fam, doc: Node, docs, cap):
+    """queries to the structure helpers and to the step builders of split / join / lift / wrap, answered by
+    the implementation; Coq compares each with Model.StructOps (the builders: the very step handed to
+    Transform.step, or the error class when that step does not apply)"""
+    from pm import attrs_term
+    info = S.info_for(fam)
+    sc = gen.family(fam)
+    ps = S.boundary_positions(doc)
+    out = []
+
+    def case(qterm, ans, kind, qdesc):
+        term, short = ans
+        return Case(coq=f"CStruct @S@ {info.node(doc)} {qterm} {term}",
+                    desc={"case": "struct", "family": fam, "doc": doc.to_json(), "query": qdesc, "answer": short},
+                    schema=info.schema_term(), kind=f"struct:{kind}/{short.split(':')[0] if short.startswith('error') else 'ok'}",
+                    nontrivial=True)
+
+    def last_step(f):
+        tr = Transform(doc)
+        f(tr)
+        return tr.steps[-1]
+
+    for _ in range(cap):
+        pos = rng.choice(ps)
+        depth = rng.randint(1, 3)
+        out.append(case(f"(QCanSplit {nat(pos)} {nat(depth)})",
+                        _answer(info, lambda: structure.can_split(doc, pos, depth), "bool"), "can_split",
+                        {"q": "can_split", "pos": pos, "depth": depth}))
+        if doc.resolve(pos).depth >= depth:
+            out.append(case(f"(QSplit {nat(pos)} {nat(depth)})",
+                            _answer(info, lambda: last_step(lambda t: t.split(pos, depth)), "step"), "split",
+                            {"q": "split", "pos": pos, "depth": depth}))
+        out.append(case(f"(QCanJoin {nat(pos)})", _answer(info, lambda: structure.can_join(doc, pos), "optbool"),
+                        "can_join", {"q": "can_join", "pos": pos}))
+        jd = rng.randint(1, 2)
+        if pos - jd >= 0 and pos + jd <= doc.content.size:
+            out.append(case(f"(QJoin {nat(pos)} {nat(jd)})",
+                            _answer(info, lambda: last_step(lambda t: t.join(pos, jd)), "step"), "join",
+                            {"q": "join", "pos": pos, "depth": jd}))
+        d = rng.choice([-1, 1])
+        out.append(case(f"(QJoinPoint {nat(pos)} {b(d > 0)})",
+                        _answer(info, lambda: structure.join_point(doc, pos, d), "optnat"), "join_point",
+                        {"q": "join_point", "pos": pos, "dir": d}))
+        ty = sc.nodes[rng.choice([nm for nm, t in sc.nodes.items() if not t.is_text])]
+        out.append(case(f"(QInsertPoint {nat(pos)} {info.ty(ty)})",
+                        _answer(info, lambda: structure.insert_point(doc, pos, ty), "optnat"), "insert_point",
+                        {"q": "insert_point", "pos": pos, "type": ty.name}))
+        # ranges: the default block range and block ranges at a chosen ancestor level
+        c = rng.choice([p for p in ps if p >= pos])
+        ra, rc = doc.resolve(pos), doc.resolve(c)
+        cands = [ra.block_range(rc)]
+        if ra.depth >= 2:
+            want = ra.node(rng.randint(1, ra.depth - 1))
+            cands.append(ra.block_range(rc, lambda nd, want=want: nd is want))
+        for rg in cands:
+            if rg is None:
+                continue
+            f_, t_, dp = rg.from_.pos, rg.to.pos, rg.depth
+            tgt_ans = _answer(info, lambda: structure.lift_target(rg), "optnat")
+            out.append(case(f"(QLiftTarget {nat(f_)} {nat(t_)} {nat(dp)})", tgt_ans, "lift_target",
+                            {"q": "lift_target", "from": f_, "to": t_, "depth": dp}))
+            try:
+                tgt = structure.lift_target(rg)
+            except Exception:  # noqa: BLE001
+                tgt = None
+            targets = ([tgt] if tgt is not None else []) + ([rng.randint(0, dp - 1)] if dp >= 1 and rng.random() < 0.3 else [])
+            for tg in targets:
+                out.append(case(f"(QLift {nat(f_)} {nat(t_)} {nat(dp)} {nat(tg)})",
+                                _answer(info, lambda: last_step(lambda t: t.lift(rg, tg)), "step"), "lift",
+                                {"q": "lift", "from": f_, "to": t_, "depth": dp, "target": tg}))
+            names = [nm for nm, t in sc.nodes.items() if not t.is_text and not t.is_leaf]
+            wt = sc.nodes[rng.choice(names)]
+            try:
+                ws = structure.find_wrapping(rg, wt, g_attrs(rng, wt))
+            except Exception:  # noqa: BLE001
+                ws = None
+            if ws is None and rng.random() < 0.3:
+                ws = [structure.NodeTypeWithAttrs(wt, g_attrs(rng, wt))]
+            if ws is not None:
+                wterm = lst(f"({info.ty(w.type)}, {attrs_term(w.attrs)})" for w in ws)
+                out.append(case(f"(QWrap {nat(f_)} {nat(t_)} {nat(dp)} {wterm})",
+                                _answer(info, lambda: last_step(lambda t: t.wrap(rg, ws)), "step"), "wrap",
+                                {"q": "wrap", "from": f_, "to": t_, "depth": dp,
+                                 "wrappers": [[w.type.name, w.attrs] for w in ws]}))
+    return out
+
+
+def g_attrs(rng, t):
+    out = {}
+    for name, a in t.attrs.items():
+        if a.has_default and rng.random() < 0.6:
+            continue
+        out[name] = rng.randint(1, 3) if name in ("level", "order") else rng.choice(["a.png", "b"])
+    return out or None
+
+
 def generate(rng: random.Random, tier: str):
     quick = tier == "quick"
     for fam in gen.FAMILY:
         g, docs = S.family_docs(rng, fam, 10 if quick else 150)
         for doc in docs:
+            for cs in struct_queries(rng, fam, doc, docs, 6 if quick else 20):
+                yield cs
             for helper, fixed in approved_candidates(rng, doc, 3 if quick else 10):
                 yield helper_case(rng, fam, g, doc, docs, helper, fixed)
             for _ in range(16 if quick else 60):
